@@ -95,6 +95,12 @@ def cases(draw):
         if rx["type"] == "general" and draw(st.integers(0, 3)) == 0:
             rx["tree"] = ["div", rx["tree"], ["vol"]]
             rx["pd"]["rate"] = ref.show(rx["tree"])
+    # a general rate written with minimal parentheses and a unary minus in front of a power: k * exp(-A^2)
+    for rx in sp["reactions"]:
+        if rx["type"] == "general" and draw(st.integers(0, 3)) == 0:
+            a_ = gen.sym(draw(st.sampled_from(species)))
+            rx["tree"] = ["mul", rx["tree"], ["exp", ["neg", ["pow", a_, gen.num(draw(st.sampled_from([2.0, 3.0])))]]]]
+            rx["pd"]["rate"] = ref.show_min(rx["tree"])
     # rules on extra target species
     nrules = draw(st.integers(0, 3))
     for i in range(nrules):
